@@ -48,7 +48,10 @@ impl<'a> Scenario for IndexScenario<'a> {
     fn init(&self, old: Option<Sim>) -> Sim {
         let mut world = World::new(vec![self.chain.clone()], self.cfg.cp_interval);
         world.add_peer(1, 0, self.chain.tip_number());
-        world.filter_batch = self.filter_batch;
+        // (a filter batch of 10_000 + b means: batch b and block bodies slower than everything
+        // else, so that several matched-blocks records are pending at the same time)
+        world.filter_batch = self.filter_batch % 10_000;
+        world.slow_blocks = self.filter_batch >= 10_000;
         crate::verif::client::set_now(crate::verif::world::BASE_TS + 1_000_000);
         let mut sim = match old {
             Some(old) => Sim::recycle(old, self.cfg.clone(), world),
@@ -271,7 +274,7 @@ pub(crate) fn run(opts: &Opts, report: &mut Report) {
     let mut items: Vec<(usize, usize, u64)> = vec![];
     for (wi, (_, chain)) in ws.iter().enumerate() {
         for si in 0..script_sets(&env0, chain.tip_number()).len() {
-            for batch in if thorough { vec![3u64, 1000] } else { vec![5u64] } {
+            for batch in if thorough { vec![3u64, 1000, 10_002] } else { vec![5u64] } {
                 items.push((wi, si, batch));
             }
         }
